@@ -243,7 +243,13 @@ def run_history(spec):
 
 
 def _make(mk, prior_kind, ck, resume):
+    import nautilus.sampler as ns
+    from nautilus.bounds import NautilusBound
     kw = dict(mk)
+    grid = kw.pop('grid', None)
+    if grid is not None:      # mode S: the real Sampler control flow over scripted grid bounds
+        return runs.make_grid_sampler(**grid)
+    ns.NautilusBound = NautilusBound
     if ck:
         kw.update(filepath=ck, resume=resume)
     if prior_kind == 'inplace':
@@ -477,6 +483,14 @@ def histories(tier, seed):
     for j in range(6):   # several seeds: unused transfer candidates at the end of exploration are rare
         add([('run', dict(n_eff=100)), ('discard', True), ('run', dict(n_eff=100, n_shell=25))], kind='bimodal', n_live=100, n_batch=10,
             n_update=15, seed=seed + j, blob=None)
+    # mode S: scripted grid bounds and per-cell likelihood tables (plateaus, -inf cells, irregular overlaps): frequent rejected
+    # bounds, emptied shells, heavy transfers
+    for j in range(20 if tier == 'quick' else 200):
+        g = dict(table_seed=1000 * seed + j, n_live=[20, 30, 40][j % 3], n_batch=[2, 5, 7, 10][j % 4], n_update=[3, 5, 10, 20][(j // 2) % 4],
+                 seed=seed + j, smooth=[0.5, 20.0][j % 2], extra=[3, 2, 0][j % 3], K=[4, 5][j % 2], blob=['serial', None][j % 2])
+        H.append({'make': {'grid': g, 'kind': 'grid', 'seed': seed + j},
+                  'script': [('run', dict(n_eff=60, n_like_max=1500, f_live=[0.95, 0.6, 0.3][j % 3], discard_exploration=bool(j % 2))), ('toggle2',),
+                             ('discard', True), ('run', dict(n_eff=80, n_shell=12, n_like_max=2500, f_live=0.5)), ('toggle2',)]})
     # resumes from the checkpoint file in exploration (with >= 11 bounds) and in the sampling phase
     add([('run', dict(n_eff=300, n_like_max=900)), ('resume',), ('run', dict(n_eff=300, n_like_max=1700)), ('resume',),
          ('run', dict(n_eff=300)), ('resume',), ('toggle2',), ('run', dict(n_eff=450)), ('resume',), ('run', dict(n_eff=500))],
